@@ -409,6 +409,11 @@ def run(tier, seed):
     pols = [dict(p, tag="corpus") for p in corpus()] + list(grid_policies(counts))
     for _ in range(1500 if thorough else 150):
         pols.append(random_policy(r, 40 if thorough else 16))
+    # long retry sequences: the doubling factor must stop growing once the cap is reached
+    # (2^64 and 2^1024 are the places where an ever-growing factor breaks)
+    for c, d, mx in ((70, 1000000, 4000000), (100, 1000000000, 4000000000), (130, 1000, 1000000),
+                     (1100, 1000000, 8000000)):
+        pols.append(dict(kind="exp", count=c, delay=d, jitter=False, max_delay=mx, tag="long:capped"))
     check_delay_lists(chk, pols, binary, "c07d")
     distinct = {json.dumps(pol_tuple(p)) for p in pols if p["count"] >= 2}
     chk.sample(dict(policy=pols[len(pols) // 2], documented_delays=doc_delays(pols[len(pols) // 2])))
